@@ -12,10 +12,12 @@ IEF = {
     ('BaseConstraintVerifier.verify_sign_constraint', 'UNBOUND', 'result'):
         'if/elif chain over constraint.value covers the closed enumeration SIGNS; SignConstraint.__init__ validates '
         'the value against SIGNS at construction (check_validity), so no other value reaches the verifier',
-    ('Extractor.rle_fc_c', 'UNBOUND', 'nfc'):
-        'first iteration: last_fc is None and fine_class() never returns None, so the else arm binds nfc before any increment',
-    ('Extractor.rle_fc_c', 'UNBOUND', 'nc'):
-        'first iteration: last_c is None and c is a character, so the else arm binds nc before any increment',
+    # not a symbol but a shape, checked by ief.first_item_sentinel wherever it stands in rle_fc_c (or a local function of it):
+    # `last = None` ahead of the loop, `if item == last: count += 1 / else: ...; last = item; count = 1`, reads after the loop
+    # under `if last:`.  What was confirmed by reading is only that the items are never None.
+    ('Extractor.rle_fc_c', 'UNBOUND', 'first-item-sentinel'):
+        'first iteration: the last-item variable is None and the items run-length encoded here are the characters of an example '
+        'and the codes fine_class() returns for them - never None - so the else arm binds the count before any increment',
     ('SQLDatabaseHandler.check_table_exists', 'UNBOUND', 'allsql'):
         'the arm without allsql needs a falsy schema under postgres/mysql, but default_schema() returns a non-empty '
         'schema or raises for those database types; the sqlite arm binds it',
